@@ -1219,6 +1219,78 @@ func factsUnpackDecision(p *pkg) {
 	emit("")
 }
 
+// factsUnpackLayerDecision: the same block in UnpackLayer — `if fi, err := os.Lstat(path); err == nil { if C { if R { return … }
+// if err := os.RemoveAll(path) … } }` — as a function of (what is there is a directory, the entry is a directory, the
+// entry names the destination itself): 1 = refuse, 3 = remove what is there first, 0 = merge.
+func factsUnpackLayerDecision(p *pkg) {
+	emit("-- diff.go UnpackLayer: what happens when something is already at the entry's path")
+	none := func() {
+		emit("def unpackLayerDecision? : Option (Bool → Bool → Bool → Nat) := none")
+		emit("")
+	}
+	fd, fset := findFunc(p, "UnpackLayer", "")
+	if fd == nil {
+		none()
+		return
+	}
+	var blk *ast.BlockStmt
+	ast.Inspect(fd.Body, func(n ast.Node) bool {
+		is, ok := n.(*ast.IfStmt)
+		if !ok || is.Init == nil || blk != nil {
+			return true
+		}
+		if exprString(fset, is.Init) == "fi, err := os.Lstat(path)" && exprString(fset, is.Cond) == "err == nil" && is.Else == nil {
+			blk = is.Body
+		}
+		return true
+	})
+	if blk == nil || len(blk.List) != 1 {
+		none()
+		return
+	}
+	outer, ok := blk.List[0].(*ast.IfStmt)
+	if !ok || outer.Init != nil || outer.Else != nil {
+		none()
+		return
+	}
+	cond, good := unpackCondLean(fset, outer.Cond)
+	if !good {
+		none()
+		return
+	}
+	inner := "3"
+	sawRemove := false
+	for _, st := range outer.Body.List {
+		is, ok := st.(*ast.IfStmt)
+		if !ok || is.Else != nil {
+			none()
+			return
+		}
+		if is.Init != nil {
+			if exprString(fset, is.Init) == "err := os.RemoveAll(path)" && exprString(fset, is.Cond) == "err != nil" && !sawRemove {
+				sawRemove = true
+				continue
+			}
+			none()
+			return
+		}
+		// a refusal before the removal
+		c2, g2 := unpackCondLean(fset, is.Cond)
+		rs, isRet := is.Body.List[0].(*ast.ReturnStmt)
+		if !g2 || sawRemove || len(is.Body.List) != 1 || !isRet || len(rs.Results) != 2 || !strings.HasPrefix(exprString(fset, rs.Results[1]), "fmt.Errorf(") {
+			none()
+			return
+		}
+		inner = "(if " + c2 + " then 1 else " + inner + ")"
+	}
+	if !sawRemove {
+		none()
+		return
+	}
+	emit("def unpackLayerDecision? : Option (Bool → Bool → Bool → Nat) := some fun isDir entIsDir isSelf => if %s then %s else 0", cond, inner)
+	emit("")
+}
+
 // ---------------------------------------------------------------- order of effects
 
 // callOrder lists, by source position, the first occurrence of each of the named calls inside fd.
